@@ -53,6 +53,8 @@ def alphabet():
         acall(["a", "b"], "<func>g2", [S(Y, C(1))]),
         assign("<state>z", S(Z, IF(CMP("<", V("a"), C(3)), C(1), C(-1)))),
         assign("a", S(Z, C(1))),
+        assign("b", S(C(1), CALL("<func>f", [CALL("<func>g", [Y, C(1)])]))),        # call nested in a call's argument
+        assign("c", S(V("temp__state_y"), Y)),
     ]
 
 
